@@ -373,7 +373,8 @@ func createUpstreamRequest(rw http.ResponseWriter, r *http.Request) (*http.Reque
 	// important is "Connection" because we want a persistent
 	// connection, regardless of what the client sent to us.
 	for _, h := range hopHeaders {
-		if outreq.Header.Get(h) != "" {
+		// (present at all: a header whose first line is empty is still sent)
+		if _, present := outreq.Header[h]; present {
 			if !copiedHeaders {
 				outreq.Header = make(http.Header)
 				copyHeader(outreq.Header, r.Header)
